@@ -23,7 +23,7 @@ COMPONENTS = {
 }
 ASSUMPTIONS = ['files do not change while the snapshot runs', 'path arguments are resolved (README); entries below a directory keep their traversal path',
                'no symlink cycles', 'scrypt work factors reduced (n<=8)']
-PROBES = ['large_files_and_chunks', 'empty_only_tree', 'dup_args', 'same_path_two_spellings', 'symlink_file', 'symlink_dir', 'preexisting_longer', 'preexisting_shorter', 'piece_knob', 'unaligned_max', 'min_eq_max']
+PROBES = ['preexisting_same_size_and_mtime', 'large_files_and_chunks', 'empty_only_tree', 'dup_args', 'same_path_two_spellings', 'symlink_file', 'symlink_dir', 'preexisting_longer', 'preexisting_shorter', 'piece_knob', 'unaligned_max', 'min_eq_max']
 TIERS = {'quick': {'budget_s': 75, 'batch': 20}, 'thorough': {'budget_s': 900, 'batch': 40}}
 
 
@@ -98,7 +98,7 @@ def gen_case(seed, tier):
     args = [base64.b64encode(os.fsencode(a)).decode() for a in args]
     pre = None
     if rng.random() < 0.4 or big:
-        pre = {'mode': [rng.choice(['longer', 'shorter', 'shorter-by-much', 'different', 'nonempty', 'same']) for _ in range(4)],
+        pre = {'mode': [rng.choice(['longer', 'shorter', 'shorter-by-much', 'different', 'different-same-mtime', 'nonempty', 'same']) for _ in range(4)],
                'unrelated': rng.randrange(0, 3), 'seed': rng.randrange(1 << 30)}
     return {
         'seed': seed, 'sched_seed': seed, 'settings': settings, 'tree': tree, 'links': links, 'args': args, 'big': big,
@@ -212,10 +212,11 @@ def run_case(case):
         if case.get('pre'):
             prng = substream(case['pre']['seed'], 'pre')
             modes = case['pre']['mode']
-            for i, (p, (data, _)) in enumerate(sorted(exp.items())):
+            for i, (p, (data, rec_mt)) in enumerate(sorted(exp.items())):
                 if i >= len(modes):
                     break
                 m = modes[i]
+                stamp = None
                 if m == 'longer':
                     old = prng.randbytes(len(data) + prng.randrange(1, 40))
                     probes['preexisting_longer'] = 1
@@ -225,6 +226,12 @@ def run_case(case):
                 elif m == 'shorter-by-much':
                     old = prng.randbytes(prng.randrange(1, len(data))) if len(data) > 1 else b''
                     probes['preexisting_shorter'] = 1
+                elif m == 'different-same-mtime':
+                    # same length and same modification time as recorded, other bytes (a copy that was damaged, or
+                    # a tool that puts time-stamps back)
+                    old = bytes(b ^ 0xFF for b in data)
+                    stamp = rec_mt
+                    probes['preexisting_same_size_and_mtime'] = 1
                 elif m == 'different':
                     old = prng.randbytes(len(data))
                 elif m == 'nonempty':
@@ -236,6 +243,8 @@ def run_case(case):
                 q = harness.restored_path(target, p)
                 q.parent.mkdir(parents=True, exist_ok=True)
                 q.write_bytes(old)
+                if stamp is not None:
+                    os.utime(q, ns=(stamp, stamp))
             for j in range(case['pre']['unrelated']):
                 q = target / f'unrelated-{j}' / 'keep.bin'
                 q.parent.mkdir(parents=True, exist_ok=True)
